@@ -377,7 +377,28 @@ register("C11", title="credentials", pkg=".",
          technique="exhaustive-by-construction request matrix against the real HTTP dispatchers with a state-digest oracle")
 
 
-register("C07", title="message of death is contained", pkg=".",
+def c07_on_fatal(vc, spec, res, c, recs):
+    """The parent died while restarting/replaying: the node does not survive its own replay."""
+    prog = [r for r in recs if r.get("t") == "progress"]
+    # evaluations observed so far are lost with the summary; count what the progress records tell
+    if prog and (prog[-1].get("v") or {}).get("phase") == "restart-replay":
+        t = tail(c.logfile, 2500)
+        reason = "unknown"
+        for marker in ("PANIC called", "nil pointer", "index out of range", "Fatal", "fatal error"):
+            if marker in t:
+                reason = marker.replace(" ", "-")
+                break
+        res.violations.append({"t": "violation", "prop": "C07", "key": "node-dies-again-on-restart:" + reason,
+                               "what": "after the crash the node was restarted on the same directory and died again while restoring/replaying/applying later entries: %s" % t[-700:],
+                               "witness": prog[-1].get("v")})
+        res.evaluations += len(prog)
+        res.distinct.add("fatal-in-replay")
+        res.distinct.add("fatal-in-replay-2")
+    else:
+        res.broken.append({"why": "C07 child %d exited rc=%s without summary outside the replay phase: %s" % (c.k, c.rc, tail(c.logfile, 1500))})
+
+
+register("C07", title="message of death is contained", pkg=".", on_fatal=c07_on_fatal,
          parts=[{"test": "^TestVerifC07$", "children": {"quick": 8, "thorough": 16}, "cases": {"quick": 5, "thorough": 40}}],
          timeout={"quick": 400, "thorough": 2400}, level="fault_enumeration",
          env={"ROBUSTIRC_TESTING_ENABLE_PANIC_COMMAND": "1"},
